@@ -15,8 +15,8 @@ P = {
     'technique': 'Coq proof (fixed-point arithmetic over Z, calendar arithmetic, induction over block histories) + differential '
                  'correspondence against the real coinomics keeper',
     'drivers': [
-        {'name': 'coinomics', 'n': {'quick': 1000, 'thorough': 100000}, 'shrink_field': 'blocks', 'batch': 10000},
-        {'name': 'declib', 'n': {'quick': 600, 'thorough': 30000}, 'batch': 30000},
+        {'name': 'coinomics', 'n': {'quick': 1000, 'thorough': 60000}, 'shrink_field': 'blocks', 'batch': 10000},
+        {'name': 'declib', 'n': {'quick': 600, 'thorough': 20000}, 'batch': 20000},
     ],
     'coq_header': 'From HV Require Import Base.Dec Coinomics.MintModel.\nFrom Coq Require Import ZArith NArith List.\nImport ListNotations.',
     'lists': {
